@@ -61,10 +61,52 @@ func c20RunTable(in *c20Input, sink *CaseSink) {
 	var coqOps, coqObs []string
 	oracleBad := ""
 	overflowRemoved := false
+	panicked := false
 	for _, op := range in.Ops {
+		if panicked {
+			break
+		}
 		key := []byte{byte(op.Key)}
 		var flag bool
 		var p unsafe.Pointer
+		func() {
+			defer func() {
+				if e := recover(); e != nil {
+					panicked = true
+					if oracleBad == "" {
+						oracleBad = fmt.Sprintf("%s(%d) panicked: %v", map[string]string{"u": "Update", "g": "Get", "r": "Remove"}[op.Op], op.Key, e)
+					}
+				}
+			}()
+			c20TableOp(nt, op, key, ids, ref, &flag, &p, &coqOps, &oracleBad, &overflowRemoved)
+		}()
+		if panicked {
+			coqObs = append(coqObs, "(false, None, (-1)%Z)")
+			continue
+		}
+		if int(nt.ItemsCount()) != len(ref) && oracleBad == "" {
+			oracleBad = fmt.Sprintf("ItemsCount=%d but reference map holds %d keys", nt.ItemsCount(), len(ref))
+		}
+		pid := "None"
+		if p != nil {
+			pid = fmt.Sprintf("(Some %d)", ids[p])
+		}
+		coqObs = append(coqObs, fmt.Sprintf("(%s, %s, %s)", cBool(flag), pid, cZ(nt.ItemsCount())))
+	}
+	c20TableFinish(nt, in, sink, coqOps, coqObs, oracleBad, overflowRemoved)
+}
+
+func c20TableOp(nt *nodetable.NodeTable, op c20Op, key []byte, ids map[unsafe.Pointer]int, ref map[int]int,
+	flagp *bool, pp *unsafe.Pointer, coqOpsP *[]string, oracleBadP *string, overflowRemovedP *bool) {
+	var flag bool
+	var p unsafe.Pointer
+	coqOps := *coqOpsP
+	oracleBad := *oracleBadP
+	overflowRemoved := *overflowRemovedP
+	defer func() {
+		*flagp, *pp, *coqOpsP, *oracleBadP, *overflowRemovedP = flag, p, coqOps, oracleBad, overflowRemoved
+	}()
+	{
 		switch op.Op {
 		case "u":
 			o := &c20Obj{key: key, id: op.ID}
@@ -97,15 +139,10 @@ func c20RunTable(in *c20Input, sink *CaseSink) {
 			}
 			delete(ref, op.Key)
 		}
-		if int(nt.ItemsCount()) != len(ref) && oracleBad == "" {
-			oracleBad = fmt.Sprintf("ItemsCount=%d but reference map holds %d keys", nt.ItemsCount(), len(ref))
-		}
-		pid := "None"
-		if p != nil {
-			pid = fmt.Sprintf("(Some %d)", ids[p])
-		}
-		coqObs = append(coqObs, fmt.Sprintf("(%s, %s, %s)", cBool(flag), pid, cZ(nt.ItemsCount())))
 	}
+}
+
+func c20TableFinish(nt *nodetable.NodeTable, in *c20Input, sink *CaseSink, coqOps, coqObs []string, oracleBad string, overflowRemoved bool) {
 	st := map[string]int64{}
 	for _, m := range c20StatRe.FindAllStringSubmatch(nt.Stats(), -1) {
 		v, _ := strconv.ParseInt(m[2], 10, 64)
